@@ -1,9 +1,9 @@
 """Registry: which units serve which property, the level each property is claimed at, and the manifest texts."""
 REGISTRY = {
     'C01': ['base_core', 'handles', 'connect', 'result'],
-    'C06': ['base_core', 'handles', 'connect'],
+    'C06': ['base_core', 'handles', 'connect', 'shared_contract'],
     'C02': ['core', 'result', 'entry'],
-    'C03': ['base_core', 'handles', 'core', 'event', 'strand', 'when', 'intrusive_ptr', 'connect', 'ownership', 'entry'],
+    'C03': ['base_core', 'handles', 'core', 'event', 'strand', 'when', 'intrusive_ptr', 'connect', 'ownership', 'entry', 'shared_contract'],
     'C04': ['base_core', 'strand', 'event', 'coro_mutex', 'spinlock'],
     'C05': ['thread_pool', 'strand', 'core', 'handles', 'ownership', 'entry'],
     'C07': ['strand'],
@@ -46,7 +46,8 @@ CLAIMS = {
                 'SetInlineImpl<.,true>, the fulfilment walk of SetResultImpl<.,true> over a ghost pool of symbolic length (every registered '
                 'callback run exactly once, in order, after the value is stored; ->next read before the callback runs; three promise '
                 'references dropped, one before the last callback), Empty/Ready. '
-                'Unit connect (Connect with SharedFuture / SharedPromise), and in unit handles: SharedFutureBase Get / Touch (moved only by the provably last rvalue holder, GetRef() == 1; const forms never move), Detach, SharedPromise Set / destructor, Share x4, Split; Core::Impl / Call record move vs const read (a step never moves the value out of a SharedFuture).',
+                'Unit connect (Connect with SharedFuture / SharedPromise), and in unit handles: SharedFutureBase Get / Touch (moved only by the provably last rvalue holder, GetRef() == 1; const forms never move), Detach, SharedPromise Set / destructor, Share x4, Split; Core::Impl / Call record move vs const read (a step never moves the value out of a SharedFuture). '
+                'Unit shared_contract: MakeSharedContract / MakeSharedContractOn / MakeSharedPromise - the core is born with exactly the references that are given back later (three by the fulfilment walk, one per future; both constants extracted), the handles adopt them, the local pointer is emptied.',
         'note': 'SC atomics; the callback list is a ghost pool (node k = pool[k], symbolic length up to 2^40) accessed through a live-node '
                 'accessor; reference-count thresholds of ResultCore::Impl are in unit result_core when present.',
         'design': 'DESIGN.md 6 C06, 5.B, 5.I, A.2',
